@@ -716,7 +716,7 @@ _esnap = 'S0.graph.live()[S0.graph.n() - 1 - %s]' % _ep
 row('GRAPH.EDGE*HISTORY', ['C18'], touches=['graph', 'int', 'float'], clauses=buf_same('graph') + [kept('int', 3, 0), kept('float', 0, 1),
     ('fired.graph.readonly', 'S1.graph.live() =~= S0.graph.live()'),
     ('fired.negative-position', '(S0.int.len() >= 1 && %s < 0) ==> (S1.int =~= S0.int.drop_last() && S1.float == S0.float)' % _ep),
-    ('fired.weight-of-the-snapshot', '(S0.int.len() >= 3 && 0 <= %s < S0.graph.n() && top(S0.int, 1) >= 0 && top(S0.int, 2) >= 0) ==> '
+    ('fired.weight-of-the-snapshot', '(S0.int.len() >= 3 && 0 <= %s < S0.graph.n()) ==> '
      '(match %s.weight_of(top(S0.int, 2) as usize, top(S0.int, 1) as usize) { Some(w) => S1.float =~= S0.float.push(w), None => S1.float == S0.float })' % (_ep, _esnap)),
     ('fired.no-such-snapshot', '(S0.int.len() >= 1 && %s >= S0.graph.n()) ==> S1.float == S0.float' % _ep)])
 row('GRAPH.PRINT', ['C18'], touches=['name'], clauses=[kept('name', 0, 1)] + untouched_without_graph(['name']))
@@ -1118,7 +1118,7 @@ ROWS['GRAPH.EDGE*ADD'].clauses += [
      '&& (!(%s.nodes@.contains_key(%s) && %s.nodes@.contains_key(%s)) ==> %s.edges@ == %s.edges@)'
      % (_g1, _g0, _g1, _g1, _d, _g0, _d, _g0, _o, _g0, _d, _g1, _d, _g1, _d, _g1, _d, _o, _g0, _o, _g0, _d, _g1, _g0))]
 
-_ids_ok = 'top(S0.int, 1) >= 0 && top(S0.int, 0) >= 0'     # ids are `as usize` of INTEGERs: stated for the non-negative ones
+_ids_ok = 'true'     # ids are `as usize` of INTEGERs, negative ones included: the specification uses the same cast as the code (seed C18-7)
 ROWS['GRAPH.EDGE*GETWEIGHT'].clauses += [
     ('fired.weight-pushed', '(S0.graph.n() >= 1 && S0.int.len() >= 2 && %s) ==> (match %s.weight_of(%s, %s) { Some(w) => S1.float =~= S0.float.push(w), None => S1.float == S0.float })' % (_ids_ok, _g0, _o, _d))]
 ROWS['GRAPH.EDGE*SETWEIGHT'].clauses += [
